@@ -20,6 +20,16 @@ type mutCtx struct {
 
 func (x *mutCtx) intn(lo, hi int, l string) int { return rapid.IntRange(lo, hi).Draw(x.t, l) }
 func (x *mutCtx) pct(p int, l string) bool      { return rapid.IntRange(0, 99).Draw(x.t, l) < p }
+// rarely is true with probability 2^-bits (fair coin flips: rapid's integer
+// generators favour small values, so pct(5) fires far more often than 5%).
+func (x *mutCtx) rarely(bits int, l string) bool {
+	for i := 0; i < bits; i++ {
+		if !rapid.Bool().Draw(x.t, l) {
+			return false
+		}
+	}
+	return true
+}
 func (x *mutCtx) pick(xs []string, l string) string {
 	return rapid.SampledFrom(xs).Draw(x.t, l)
 }
@@ -98,6 +108,23 @@ func genC05() *rapid.Generator[*Spec] {
 		set := m.EvalSet(*lists[li], params)
 		if len(set.Keys) == 0 || len(set.Errs) > 0 {
 			s.Note = "C05 none"
+			return s
+		}
+		if x.rarely(4, "hashcollide") {
+			// three new providers in one list: T, then a different type U that a
+			// structural hash cannot tell from T (same fields, other order), then T again
+			mkT := func() *Type {
+				return &Type{K: "structlit", Fields: []LitField{{Name: "A", T: Basic("int")}, {Name: "B", T: Basic("string")}}}
+			}
+			u := &Type{K: "structlit", Fields: []LitField{{Name: "B", T: Basic("string")}, {Name: "A", T: Basic("int")}}}
+			lp := listPkg(s, li)
+			for i, ty := range []*Type{mkT(), u, mkT()} {
+				it := addItem(s, Item{Kind: "func", Pkg: lp, Name: x.fresh(fmt.Sprintf("ProvideHC%d", i)), Out: ty})
+				lists = argLists(s)
+				*lists[li] = append(*lists[li], RItem(it))
+			}
+			s.Note = "C05 hashcollide"
+			refreshPlan(s)
 			return s
 		}
 		keys := append([]string(nil), set.Keys...)
@@ -874,7 +901,24 @@ func genC09() *rapid.Generator[*Spec] {
 			fi := funcs[x.intn(0, len(funcs)-1, "func")]
 			it := &s.Items[fi]
 			pi := x.intn(0, len(it.Params)-1, "param")
-			how := x.pick([]string{"same", "copy", "alias", "ptr-control", "variadic-elem", "respell", "respell"}, "dupflavour")
+			how := x.pick([]string{"same", "copy", "alias", "ptr-control", "variadic-elem", "respell", "respell", "hash-collide"}, "dupflavour")
+			if how == "hash-collide" {
+				// T, U, T where U is a different type that a structural hash
+				// cannot tell from T (same fields in another order)
+				mkT := func() *Type {
+					return &Type{K: "structlit", Fields: []LitField{{Name: "A", T: Basic("int")}, {Name: "B", T: Basic("string")}}}
+				}
+				u := &Type{K: "structlit", Fields: []LitField{{Name: "B", T: Basic("string")}, {Name: "A", T: Basic("int")}}}
+				extra := []*Type{mkT(), u, mkT()}
+				if it.Variadic {
+					it.Params = append(extra, it.Params...)
+				} else {
+					it.Params = append(it.Params, extra...)
+				}
+				s.Note = "C09 dupparam hash-collide"
+				refreshPlan(s)
+				return s
+			}
 			if how == "respell" {
 				// identical types spelled differently (byte/uint8, rune/int32,
 				// any/interface{}, named function results): pick a parameter
